@@ -110,6 +110,9 @@ def run(tier):
         fnames = {f.name for f in prog.all_funcs() if 'ilu_' in f.unit or f.unit.endswith(('gsisx.c', 'ldperm.c', 'mark_relax.c', 'qselect.c'))}
         c19.run_r4(chk, prog, cfgname, funcs=fnames, cid='C15.D4')
         k = misc.relax_end_inclusive(chk, 'C15.relax', prog, cfgname)
+        chk.clause('C15.filltol', 'the value that replaces a zero pivot is nonzero')
+        for p in _drv.PRECS:
+            misc.ilu_fill_tolerance_rule(chk, 'C15.filltol', prog, p, cfgname)
         chk.clause('C15.droprow', 'ilu_?drop_row moves values and subscripts of a row together')
         for p in _drv.PRECS:
             misc.drop_row_alignment(chk, 'C15.droprow', prog, p, cfgname)
